@@ -172,6 +172,16 @@ def main(tier):
                 for j, fl in enumerate(chain):
                     cases.append("spend id=%d.%d tx=%s txin=%s flags=%d cmds=c" % (key, j, hx(c["spend"]), hx(c["fund"]), fl))
                 meta[key] = len(chain)
+    # tapscript: a key of unknown type (33 bytes) is accepted unless DISCOURAGE_UPGRADABLE_PUBKEYTYPE is set - that flag and no other
+    PKT, TVER = G.FLAG("DISCOURAGE_UPGRADABLE_PUBKEYTYPE"), G.FLAG("DISCOURAGE_UPGRADABLE_TAPROOT_VERSION")
+    for _ in range(2 if tier == "quick" else 10):
+        c = S.build(rng, "p2tr-keytype", ht=0)
+        base = STD_ & ~PKT & ~TVER
+        for chain in ([base, base | TVER, base | TVER | PKT], [base, base | PKT, base | PKT | TVER], [base & ~G.FLAG("DISCOURAGE_OP_SUCCESS"), base]):
+            key = next(cid)
+            for j, fl in enumerate(chain):
+                cases.append("spend id=%d.%d tx=%s txin=%s flags=%d cmds=c" % (key, j, hx(c["spend"]), hx(c["fund"]), fl))
+            meta[key] = len(chain)
     diffs = chk.compare("flag-chains", cases, nontrivial=lambda c, il: True)
     for c, il, ml, sl, fl in diffs[:3]:
         chk.violation("chain-model-mismatch", "session under a flag set differs from the model", {"stream": "flag-chains", "case": c, "impl": il[-1:], "model": ml[-1:]})
